@@ -45,15 +45,15 @@ func poolRemainder(v View, owner, pool string) (sdk.Int, bool) {
 func coins(n int64) sdk.Coins { return sdk.NewCoins(sdk.NewInt64Coin(harness.Denom, n)) }
 
 type vestCfg struct {
-	name      string
-	poolSpecs []poolSpec
-	blocks    []time.Duration
-	sendAmts  []string // "0","1","3","rem","rem+1"
-	withExtra bool     // direct creation, split, move
-	withInval bool
-	owners    []string
-	pools     []string
-	poolDefs  []poolDef // explicit create-pool events (instead of owners x pools x poolSpecs)
+	name            string
+	poolSpecs       []poolSpec
+	blocks          []time.Duration
+	sendAmts        []string // "0","1","3","rem","rem+1"
+	withExtra       bool     // direct creation, split, move
+	withInval       bool
+	owners          []string
+	pools           []string
+	poolDefs        []poolDef // explicit create-pool events (instead of owners x pools x poolSpecs)
 	sendRestartBoth bool
 }
 
